@@ -281,14 +281,14 @@ VARIANTS = [
             if field.attname not in _obj_self.__dict__:""", """            if field.attname not in _obj_self.__dict__:""")),
     # ------------------------------------------------------------------ C16
     B("C16 revert F18: cache reset deleted", "C16", "R16a",
-      (UBASE, """            # a new registration may change the resolution of types that are already memoised
-            self._cache.clear()
+      (UBASE, """                # a new registration may change the resolution of types that are already memoised
+                self._cache.clear()
 """, "")),
     B("C16 revert F19: sort conditional again", "C16", "R16b",
-      (UBASE, """            self._registry.sort(key=lambda v: -v[2])
-            # a new""", """            if priority:
-                self._registry.sort(key=lambda v: -v[2])
-            # a new""")),
+      (UBASE, """                self._registry.sort(key=lambda v: -v[2])
+                # a new""", """                if priority:
+                    self._registry.sort(key=lambda v: -v[2])
+                # a new""")),
     B("C16 metaclass criterion dropped from detector", "C16", "R16c",
       (UBASE, """                if metaclass:
                     if not isinstance(_cls, metaclass):
@@ -303,13 +303,11 @@ VARIANTS = [
     B("C16 sort ascending", "C16", "R16b",
       (UBASE, "self._registry.sort(key=lambda v: -v[2])", "self._registry.sort(key=lambda v: v[2])")),
     B("C16 resolve consults base before own list", "C16", "R16d",
-      (UBASE, """        if self.cache and t in self._cache:
-            return self._cache[t]
-        for detector, trans, priority in self._registry:""", """        if self.cache and t in self._cache:
-            return self._cache[t]
-        if self.base and self.base.resolve(t):
+      (UBASE, """        with self._lock:
+            # a fill must not""", """        if self.base and self.base.resolve(t):
             return self.base.resolve(t)
-        for detector, trans, priority in self._registry:""")),
+        with self._lock:
+            # a fill must not""")),
     # ------------------------------------------------------------------ C09
     B("C09 revert F14: ^ threads the converted value", "C09", "R09a",
       (RULE, """                        val = new_context.transformer(value, con)
@@ -867,7 +865,7 @@ VARIANTS = [
             for field in self.fields.values():
                 field.resolve_forward_refs()
             # resolve for types
-            self.addition_type, r = resolve_forward_type(self.addition_type)
+            self.resolve_forward_types()
         if self.is_local:
             # ForwardRef in local vars is not cachable
             # where typing is using a lru_cache
@@ -885,7 +883,7 @@ VARIANTS = [
             for field in self.fields.values():
                 field.resolve_forward_refs()
             # resolve for types
-            self.addition_type, r = resolve_forward_type(self.addition_type)""")),
+            self.resolve_forward_types()""")),
     B("C17 apply() dispatches on the reference object", "C17", "R17d",
       (TRANS, """        if isinstance(t, ForwardRef):
             if not t.__forward_evaluated__:
@@ -893,8 +891,8 @@ VARIANTS = [
             t = t.__forward_value__
         return func(self, data, t)""", """        return func(self, data, t)""")),
     B("C17 return type not re-resolved for functions", "C17", "R17b",
-      (FUNC, """            if self.return_type:
-                self.return_type, r = resolve_forward_type(self.return_type)""", """            pass""")),
+      (FUNC, """        if self.return_type:
+            self.return_type, r = resolve_forward_type(self.return_type)""", """        pass""")),
     # ------------------------------------------------------------------ benign
     G("benign gt: not value > gt", (RULE, "        if value <= gt:\n            raise ValueError\n        return value",
                                     "        if not value > gt:\n            raise ValueError\n        return value")),
